@@ -912,6 +912,120 @@ def rule_pairing(ctx, ts):
            "" if ok else f"open={opens} close={closes}")
 
 
+def rule_partial_filters(ctx, ts, px):
+    R = "R-C06-PARTIAL"
+    ctx.rule(
+        R,
+        "a filter that fails on an empty sequence (its body takes max()/min() of the input without a default) is evaluated by the "
+        "built-in templates only where the sequence is known to be non-empty: inside a loop over that sequence (or over a part of "
+        "it), or under a test of it - an empty message, an empty service request or a padding-only type must still generate; "
+        "assignments are evaluated where they stand, not where their variable is used",
+    )
+    N = ts.nodes
+    # partial filters, found from their bodies
+    partial = {}
+    for m in px.modules.values():
+        if not m.name.startswith("nunavut.lang.") and m.name != "nunavut.jinja":
+            continue
+        for name, f in m.funcs.items():
+            if not name.startswith("filter_"):
+                continue
+            params = [a.arg for a in f.node.args.args]
+            pm = pyfront.parent_map(f.node)
+
+            def per_element(n_):
+                """inside a comprehension / loop: evaluated once per element of something, not on the bare input"""
+                cur = n_
+                while id(cur) in pm:
+                    par = pm[id(cur)]
+                    if isinstance(par, (ast.ListComp, ast.SetComp, ast.DictComp, ast.GeneratorExp)) and cur is not par.generators[0].iter:
+                        return True
+                    if isinstance(par, (ast.For, ast.While)) and cur is not getattr(par, "iter", None):
+                        return True
+                    cur = par
+                return False
+
+            for c in ast.walk(f.node):
+                if isinstance(c, ast.Call) and isinstance(c.func, ast.Name) and c.func.id in ("max", "min") and len(c.args) == 1 \
+                        and not any(k.arg == "default" for k in c.keywords) and not per_element(c):
+                    a = c.args[0]
+                    if isinstance(a, (ast.GeneratorExp, ast.ListComp, ast.Call, ast.Name)) and any(isinstance(x, ast.Name) and x.id in params for x in ast.walk(a)):
+                        seq_params = {x.id for x in ast.walk(a) if isinstance(x, ast.Name) and x.id in params}
+                        guarded = [e for e, _p in pyfront.guard_terms(pyfront.guards_of(f.node, c) or ()) if any(re.search(rf"\b{sp}\b", e) for sp in seq_params)]
+                        if not guarded:
+                            partial[name[len("filter_"):]] = (m, f)
+    ctx.unit("filters_failing_on_empty_input", sorted(partial))
+    n = 0
+    for t in ts.templates:
+        for node, stack in j2front.walk(t.ast):
+            if not (isinstance(node, N.Filter) and node.name in partial and node.node is not None):
+                continue
+            n += 1
+            inner = node.node
+            while isinstance(inner, N.Filter) and inner.node is not None:
+                inner = inner.node          # x | map('first') | f : the sequence is x
+            operand = xs(inner)
+            base = operand.rsplit(".", 1)[0] if "." in operand else operand
+            ok = False
+            for g in stack:
+                if g.kind == "for":
+                    it = xs(g.node.iter)
+                    # a loop over the sequence itself or over a part of it (fields_except_padding of the same object) runs only if it is non-empty
+                    if it == operand or (it.startswith(base + ".") and "fields" in it and "fields" in operand):
+                        ok = True
+                elif g.kind in ("if", "condexpr") and g.pol is not False:
+                    tst = xs(g.node)
+                    if operand in tst:
+                        ok = True
+            ctx.ob(R, t.rel, f"{operand} | {node.name} @ {j2front.construct_path(stack)}", ok,
+                   "" if ok else f"`{node.name}` raises on an empty sequence and `{operand}` can be empty here (a type without fields): generation fails for a valid definition",
+                   getattr(node, "lineno", None))
+    if partial:
+        ctx.floor(R, n, 1)
+
+
+def rule_allocator_kinds(ctx, px):
+    R = "R-C06-ALLOCATOR"
+    ctx.rule(
+        R,
+        "C++: the member kinds that are handed an allocator in constructor initializers are exactly the kinds whose declared type "
+        "takes one - variable-length arrays and composites; a fixed-length array is declared std::array / std::bitset and a primitive "
+        "is a scalar: `member{allocator}` does not compile for them (decided against the installed pydsdl class hierarchy)",
+    )
+    import pydsdl
+    m = px.module("nunavut.lang.cpp")
+    f = m.funcs.get("needs_allocator")
+    if f is None:
+        raise AnalysisError("anchor missing: nunavut.lang.cpp.needs_allocator")
+    names = set()
+    for c in ast.walk(f.node):
+        if isinstance(c, ast.Call) and isinstance(c.func, ast.Name) and c.func.id == "isinstance" and len(c.args) == 2:
+            k = c.args[1]
+            if isinstance(k, ast.Name):
+                for st in m.tree.body:      # a module-level tuple of classes
+                    if isinstance(st, (ast.Assign, ast.AnnAssign)) and st.value is not None and \
+                            any(isinstance(t_, ast.Name) and t_.id == k.id for t_ in (st.targets if isinstance(st, ast.Assign) else [st.target])):
+                        k = st.value
+            for e in (k.elts if isinstance(k, ast.Tuple) else [k]):
+                names.add(ast.unparse(e).split(".")[-1])
+    classes = {nm: getattr(pydsdl, nm, None) for nm in names}
+    unknown = [nm for nm, c_ in classes.items() if c_ is None]
+    no_alloc = [pydsdl.FixedLengthArrayType, pydsdl.PrimitiveType]
+    bad = sorted(nm for nm, c_ in classes.items() if c_ is not None and any(issubclass(k, c_) for k in no_alloc))
+    ok = bool(names) and not bad and not unknown
+    ctx.ob(R, m.rel, f"{f.short} :: admits no kind that is declared as std::array / std::bitset / scalar", ok,
+           "" if ok else f"admits {bad or unknown}: fixed-length array members are initialised as `member{{allocator}}`, which std::array and std::bitset do not accept "
+           "(allocator-aware constructor conventions: c++17-pmr, cetl++14-17)", f.node.lineno)
+    need = [pydsdl.VariableLengthArrayType, pydsdl.CompositeType]
+    missing = [k.__name__ for k in need if not any(c_ is not None and issubclass(k, c_) for c_ in classes.values())]
+    ctx.ob(R, m.rel, f"{f.short} :: admits variable-length arrays and composites", not missing, "" if not missing else f"{missing} members get no allocator", f.node.lineno)
+    g = m.funcs.get("needs_vla_init_args")
+    if g is not None:
+        src = ast.unparse(g.node)
+        ok = "VariableLengthArrayType" in src and "FixedLengthArrayType" not in src and "pydsdl.ArrayType" not in src
+        ctx.ob(R, m.rel, f"{g.short} :: capacity arguments only for variable-length arrays", ok, "", g.node.lineno)
+
+
 def run(ctx):
     ctx.explanation = (
         "C06 is decided as exhaustiveness over template paths: every name a built-in template can reference on any "
@@ -946,3 +1060,5 @@ def run(ctx):
     rule_address_of(ctx, ts)
     rule_directive_bol(ctx, ts)
     rule_pairing(ctx, ts)
+    rule_partial_filters(ctx, ts, px)
+    rule_allocator_kinds(ctx, px)
